@@ -776,8 +776,7 @@ def cpp_probe_lines(gt, idx):
            f'    probe_uint("has_fixed_port_id", {n}::_traits_::HasFixedPortID);',
            f'    probe_uint("is_service", {n}::_traits_::IsServiceType);',
            ]
-    if gt.fixed_port_id is not None:
-        out.append(f'    probe_uint("fixed_port_id", {n}::_traits_::FixedPortId);')
+    out.append(f'    probe_fixed_port<{n}>(0);')
     if isinstance(m, pydsdl.UnionType):
         out.append(f'    probe_uint("union_option_count", {n}::VariantType::MAX_INDEX);')
     for c in m.constants:
